@@ -126,6 +126,24 @@ theorem ctl_stop {c : Cfg} {s s' : Sys} (hc : c.proto = .fixed) (h : CtlInv c s)
   · simp at hs
 
 
+theorem ctl_fail {c : Cfg} {s s' : Sys} (hc : c.proto = .fixed) (h : CtlInv c s) (hs : stepFail c s = some s') : CtlInv c s' := by
+  obtain ⟨m, a1, a2, a3, a4, a5, a5', a6, a7, a7', a8, a9, a10, a11⟩ := h
+  unfold stepFail at hs
+  split at hs
+  · rename_i hm
+    rcases hm with hm | hm <;> simp [MainOK, hm] at m
+    · -- the HTTP server could not be created: no server exists
+      have hsrv : s.srv = false := m.2.2.2.1
+      simp [hsrv] at hs; subst hs
+      refine ⟨?_, ?_, ?_, ?_, ?_, ?_, ?_, ?_, ?_, ?_, ?_, ?_, ?_, ?_⟩ <;> simp_all [MainOK, cbQuiet, stopHttps, afterServers]
+    · -- the HTTPS server could not be created/wrapped: the HTTP server may be serving
+      split at hs
+      · injection hs with hs; subst hs
+        refine ⟨?_, ?_, ?_, ?_, ?_, ?_, ?_, ?_, ?_, ?_, ?_, ?_, ?_, ?_⟩ <;> simp_all [MainOK, cbQuiet]
+      · injection hs with hs; subst hs
+        refine ⟨?_, ?_, ?_, ?_, ?_, ?_, ?_, ?_, ?_, ?_, ?_, ?_, ?_, ?_⟩ <;> simp_all [MainOK, cbQuiet, stopHttps, afterServers]
+  · simp at hs
+
 theorem ctl_main {c : Cfg} {s s' : Sys} (hc : c.proto = .fixed) (h : CtlInv c s) (hs : stepMain c s = some s') : CtlInv c s' := by
   obtain ⟨m, a1, a2, a3, a4, a5, a5', a6, a7, a7', a8, a9, a10, a11⟩ := h
   unfold stepMain at hs
@@ -405,6 +423,15 @@ theorem data_stop {c : Cfg} {s s' : Sys} (h : DataInv c s) (hs : stepStop c s = 
     · exact data_congr h (by simp [sameData])
     · have := sameData_stopHttps c { s with up := false }
       exact data_congr h (by simpa [sameData] using this)
+  · simp at hs
+
+theorem sameData_fail {c : Cfg} {s s' : Sys} (hs : stepFail c s = some s') : sameData s s' := by
+  unfold stepFail at hs
+  split at hs
+  · split at hs <;> injection hs with hs <;> subst hs
+    · simp [sameData]
+    · have := sameData_stopHttps c { s with up := false, startFails := s.startFails + 1 }
+      simpa [sameData] using this
   · simp at hs
 
 theorem data_main {c : Cfg} {s s' : Sys} (_hc : c.proto = .fixed) (hctl : CtlInv c s) (h : DataInv c s)
@@ -746,6 +773,7 @@ theorem uniq_step {c : Cfg} {s s' : Sys} (l : Label) (h : UniqInv c s) (hs : ste
   | cb r => exact uniq_congr h (sameHist_cb hs)
   | snd j => exact uniq_snd h hs
   | sndTls j => exact uniq_sndTls h hs
+  | failStart => exact uniq_congr h (sameHist_of_sameData (sameData_fail hs))
 
 theorem inv_step {c : Cfg} (hc : c.proto = .fixed) {s s' : Sys} (l : Label) (h : Inv c s)
     (hs : step c l s = some s') : Inv c s' := by
@@ -757,6 +785,7 @@ theorem inv_step {c : Cfg} (hc : c.proto = .fixed) {s s' : Sys} (l : Label) (h :
     | cb r => exact ctl_cb hc h.ctl hs
     | snd j => exact ctl_snd hc h.ctl hs
     | sndTls j => exact ctl_sndTls hc h.ctl hs
+    | failStart => exact ctl_fail hc h.ctl hs
   · cases l with
     | start => exact data_start h.data hs
     | stop => exact data_stop h.data hs
@@ -764,6 +793,7 @@ theorem inv_step {c : Cfg} (hc : c.proto = .fixed) {s s' : Sys} (l : Label) (h :
     | cb r => exact data_cb hc h.data hs
     | snd j => exact data_snd h.data hs
     | sndTls j => exact data_sndTls h.data hs
+    | failStart => exact data_congr h.data (sameData_fail hs)
 
 theorem uniq_reachable {c : Cfg} {n : Nat} {s : Sys} (h : Reachable c n s) : UniqInv c s := by
   induction h with
@@ -1358,6 +1388,8 @@ theorem full_step {c : Cfg} {s s' : Sys} (l : Label) (h : FullInv c s) (hs : ste
   | main => have := sameHist_main hs; exact full_congr h this.2.2.2.2.2.2.1 this.2.2.2.2.2.2.2
   | cb r => have := sameHist_cb hs; exact full_congr h this.2.2.2.2.2.2.1 this.2.2.2.2.2.2.2
   | snd j => exact full_snd h hs
+  | failStart =>
+    have := sameHist_of_sameData (sameData_fail hs); exact full_congr h this.2.2.2.2.2.2.1 this.2.2.2.2.2.2.2
   | sndTls j =>
     simp only [step, stepSndTls] at hs
     split at hs
